@@ -6,7 +6,7 @@
     are overwritten each step ([forcef] idempotent), the pid counter is restored (KNOWN FINDING when the
     restart file cannot provide it).  Diffusion off = the physics is a function. *)
 From Coq Require Import ZArith List Bool.
-From Ladim Require Import Base.Num Model.Output Proofs.OutputProofs Model.Sim Proofs.SimProofs Proofs.SimRestartProofs Proofs.RestartCountProofs.
+From Ladim Require Import Base.Num Model.Output Proofs.OutputProofs Model.Sim Proofs.SimProofs Proofs.SimRestartProofs Proofs.RestartCountProofs Proofs.OutputWarmProofs.
 Import ListNotations.
 Open Scope Z_scope.
 
@@ -45,6 +45,19 @@ Theorem C08_warm_record_count : forall n p, 0 < n -> 0 < p ->
   Z.of_nat (length (filter (fun k => k mod p =? 0) (zrange 1 n))) = cdiv n p - 1.
 Proof. exact warm_record_count. Qed.
 Print Assumptions C08_warm_record_count.
+
+(** the output module of the restarted run (skip_initial, loop over steps 1 .. N-1): never writes to a closed
+    file, closes every file, writes exactly the records of the steps k*p with 1 <= k*p < N, and its last
+    file is finished (particle variables written) whenever it holds a record *)
+Theorem C08_warm_output_machine : forall (R P : Type) (snap : Z -> R) (pvs : Z -> P) nsteps p numrec,
+  1 <= nsteps -> 1 <= p -> 0 <= numrec -> (numrec = 0 -> cdiv nsteps p <= 999999) ->
+  let s := out_run_warm R P snap pvs nsteps p numrec in
+  Output.err s = false /\
+  Forall (fun f : Output.file R P => Output.closed f = true) (Output.files s) /\
+  Output.all_records s = map snap (filter (fun k => k mod p =? 0) (zrange 1 nsteps)) /\
+  (1 < cdiv nsteps p -> Output.pv (Output.cur s) <> None).
+Proof. exact warm_records_written. Qed.
+Print Assumptions C08_warm_output_machine.
 
 (** non-vacuity: the executable instance used by the correspondence (Corr/SimInst.v) satisfies the
     hypothesis of T1, so T1 applies to every scenario the correspondence runs *)
